@@ -1541,6 +1541,27 @@ def _whole_line_in(A, rule, fq, f, idp):
         return found
 
 
+def refs_codec_rule(A, rule):
+    """every text-mode open of a reference file (permanent or its temp file) names the same codec, UTF-8 without a signature"""
+    seen = set()
+    for it, ev in all_events(A, PUBLIC_API, ALL_MODES):
+        if ev.prim != "open" or not ev.classes or "b" in str(ev.extra.get("mode") or ""):
+            continue
+        cls = {c.cls for c in primary(ev.classes[0])}
+        refs = cls & {"PIDREFS", "CIDREFS"} or any(c.cls == "TMP" and c.key == C("refs") for c in primary(ev.classes[0]))
+        if not refs or (ev.func.qual, ev.line) in seen:
+            continue
+        seen.add((ev.func.qual, ev.line))
+        rule.ob()
+        enc = ev.extra.get("encoding")
+        names = sorted({str(t[1]).lower().replace("-", "").replace("_", "") if is_const(t) else "?" for t in (enc or [])}) or ["<platform default>"]
+        rule.inst(f"{ev.func.qual}:{ev.line} open(mode={ev.extra.get('mode')!r}, encoding={names})")
+        if names != ["utf8"]:
+            rule.fail(site_func(ev), site_text(ev), f"a reference file is opened with encoding {names} where every other reader and writer uses UTF-8: identifiers "
+                      "are stored verbatim, so a codec that drops or adds characters (utf-8-sig swallows a leading U+FEFF, the platform default may not be "
+                      "UTF-8 at all) makes one identifier read back as another", site_loc(A, ev))
+
+
 def glob_rule(A, rule):
     seen18 = set()
     for it, ev in all_events(A, PUBLIC_API, ALL_MODES):
@@ -1633,6 +1654,10 @@ def check_C18(A: Analysis, tier):
                     continue
                 rd.fail(site_func(ev), site_text(ev), f"{ev.kind} destination {show(t)[:100]} is not rooted at the store root", site_loc(A, ev))
     rules.append(rd)
+    rh18 = Rule("C18", "C18.h", "reference files are read and written with one codec, plain UTF-8 (identifiers are opaque: every character of a pid, a "
+                "leading U+FEFF included, comes back as it was written)", floor=4)
+    refs_codec_rule(A, rh18)
+    rules.append(rh18)
     rg18 = Rule("C18", "C18.g", "a directory is listed literally: where glob is used, the directory part of the pattern went through glob.escape - the "
                 "characters of a store path or identifier are never read as a pattern (`[v2]`, `*`, `?` in the configured store path would make "
                 "the listing miss the directory, or reach other directories)", floor=0)
